@@ -7,7 +7,7 @@ def run(ctx):
     b = ctx.go_test_binary("fs/layer", "h_layer_c02")
     if b:
         ctx.correspond(b, "TestVerifC02", "svdriver_c02", "c02",
-                       env={"VERIF_N": 60 if quick else 900, "VERIF_OPS": 40 if quick else 70},
+                       env={"VERIF_N": 60 if quick else 700, "VERIF_OPS": 40 if quick else 70},
                        timeout=900 if quick else 3000)
     bdb = ctx.go_test_binary("containerd-stargz-grpc/db", "h_db_c02", module_dir="cmd")
     if bdb:
